@@ -95,7 +95,7 @@ func (exec *Executor) execArrayIndex(
 
 				res, resErr = exec.executeNextItem(ctx, node, next, v, found)
 				if res.failed() || (res == statusOK && found == nil) {
-					break
+					return res, resErr
 				}
 			}
 		}
